@@ -1,10 +1,12 @@
 // Differential + oracle harness for C18 (ast.Walk / ast.Inspect).
 //
 // Case line:  walk \t <m> \t <recipe> \t <dumped tree>
-//   m       prune modulus: the visitor descends into node id unless m > 0 && id % m == 0
-//   recipe  how to rebuild the real tree for -replay (file|path, mut|path|seed, synth|seed|kind|malformed|depth,
-//           pkg|seed|n)
-//   tree    astx.Dumper serialisation (ids by node identity, all Node-typed fields by reflection)
+//
+//	m       prune modulus: the visitor descends into node id unless m > 0 && id % m == 0
+//	recipe  how to rebuild the real tree for -replay (file|path, mut|path|seed, synth|seed|kind|malformed|depth,
+//	        pkg|seed|n)
+//	tree    astx.Dumper serialisation (ids by node identity, all Node-typed fields by reflection)
+//
 // Impl out:  "ok e1 e2 …" | "PANIC e1 e2 …"   with e = node id for Visit(node), "^" for Visit(nil)
 //
 // Oracle (property predicate on the real Walk/Inspect, independent of the Lean model): on every
@@ -96,7 +98,7 @@ func specWalk(d *astx.Dumper, n ast.Node, m int, evs *[]string) {
 
 // classify the first difference between the real visit sequence and the expectation:
 // rebuild, from the real events, the children visited under each node and compare per node.
-func classify(d *astx.Dumper, root ast.Node, m int, got []string, panicked bool, byID map[int]ast.Node) (key, detail string) {
+func classify(d *astx.Dumper, root ast.Node, m int, want, got []string, panicked bool, byID map[int]ast.Node) (key, detail string) {
 	type frame struct {
 		id   int
 		kids []int
@@ -106,6 +108,26 @@ func classify(d *astx.Dumper, root ast.Node, m int, got []string, panicked bool,
 	pruned := map[int]bool{}
 	var stack []*frame
 	lastKind := ""
+	if !panicked {
+		// first divergence: the expectation closes a node (Visit(nil)) where Walk goes on or stops
+		var open []int
+		for i := 0; i < len(want); i++ {
+			if i >= len(got) || got[i] != want[i] {
+				if want[i] == "^" && len(open) > 0 && (i >= len(got) || got[i] != "^") {
+					k := astx.KindName(byID[open[len(open)-1]])
+					return "missing-visit-nil:" + k, fmt.Sprintf("no Visit(nil) after the children of %s (id %d)", k, open[len(open)-1])
+				}
+				break
+			}
+			if want[i] == "^" {
+				if len(open) > 0 {
+					open = open[:len(open)-1]
+				}
+			} else if id, err := strconv.Atoi(want[i]); err == nil && !(m > 0 && id%m == 0) {
+				open = append(open, id)
+			}
+		}
+	}
 	if panicked && len(got) > 0 && got[len(got)-1] == "^" {
 		// Walk was handed a nil child: the visitor saw nil, then Walk panicked; the culprit is
 		// the innermost open node
@@ -324,7 +346,7 @@ func runCase(c caseIn, o *vh.Out) {
 		specWalk(d, c.root, c.m, &want)
 		wantS := "ok " + strings.Join(want, " ")
 		if out != wantS {
-			key, detail := classify(d, c.root, c.m, rec.evs, panicked, byID)
+			key, detail := classify(d, c.root, c.m, want, rec.evs, panicked, byID)
 			if panicked {
 				detail += " (" + clip(msg) + ")"
 			}
